@@ -62,6 +62,8 @@ class SimEntropy:
                 v = int(d["v"], 16) if isinstance(d["v"], str) else d["v"]
                 return v % bound
             if "frac" in d:
+                if bound.bit_length() > 1000:  # beyond float range (a caller reading a large block)
+                    return min(bound - 1, (bound * int(d["frac"] * (1 << 53))) >> 53)
                 return min(bound - 1, int(d["frac"] * bound))
             if "repeat" in d:
                 j = d["repeat"]
